@@ -1202,6 +1202,24 @@ func (fr *Frame) dynamicCall(t *ssa.Call, fv Val) {
 	if vc.spec > 0 {
 		unsup("dynamic call in specification")
 	}
+	// "fires" clauses of the enclosing loop: the callback may only run when the documented predicate holds
+	if fr.isTop {
+		var inner *loopData
+		for _, ld := range fr.loops {
+			if ld.blocks[fr.cur] && (inner == nil || len(ld.blocks) < len(inner.blocks)) {
+				inner = ld
+			}
+		}
+		if inner != nil {
+			if key, ok := fr.firedKey[inner]; ok {
+				for k, cl := range fr.loopClauses(inner, "fires") {
+					p := fr.evalPointClause(inner, cl, fr.cur)
+					vc.oblige("fires=>", fmt.Sprintf("%s#fires=>[L%d.%s]", fr.fname(), inner.ordinal, clauseLabel(cl, k)), fr.live, p, t.Pos())
+				}
+				fr.st.cells[key] = Val{T: tTrue}
+			}
+		}
+	}
 	// a callback: may do anything the API allows; havoc every heap
 	fr.check("nilfunc", t.Common().Value.Name(), not(eq(fv.T, Term{"nilfunc", SFunc})), t.Pos())
 	vc.havocAll(fr.st)
